@@ -127,6 +127,29 @@ func runPoints(c *vf.Check, g *groups.G) {
 			if !v.P.Equal(before) {
 				x.Failf(pk+"/encode-changes-value", "%s: not Equal to the model value after encoding", v.Name)
 			}
+			{
+				// decoding leaves the caller's buffer as it was, and the decoded object is an ordinary value: reset to the
+				// identity or the base point it encodes as a fresh identity / base point
+				arg := append([]byte{}, b...)
+				y := g.Point()
+				if err := y.UnmarshalBinary(arg); err == nil {
+					if !bytes.Equal(arg, b) {
+						x.Failf(pk+"/decode-mutates-input", "%s: UnmarshalBinary changed the buffer it decoded from", v.Name)
+					}
+					y.Null()
+					if !bytes.Equal(fmod.Enc(y), fmod.Enc(g.Point().Null())) {
+						x.Failf(pk+"/decoded-then-Null", "%s: a point decoded from this encoding and then set to Null() does not encode as the identity", v.Name)
+					}
+					if g.Base {
+						y2 := g.Point()
+						_ = y2.UnmarshalBinary(append([]byte{}, b...))
+						y2.Base()
+						if !bytes.Equal(fmod.Enc(y2), fmod.Enc(g.Point().Base())) {
+							x.Failf(pk+"/decoded-then-Base", "%s: a point decoded from this encoding and then set to Base() does not encode as the base point", v.Name)
+						}
+					}
+				}
+			}
 			for _, rc := range receivers {
 				y := rc.mk()
 				if err := y.UnmarshalBinary(append([]byte{}, b...)); err != nil {
